@@ -40,6 +40,10 @@ def log(*a):
 def goenv():
     e = dict(os.environ)
     e.update(GOFLAGS="-mod=mod", GOPROXY="off", GOSUMDB="off", GOTOOLCHAIN="local")
+    # the library's width measure depends on the process environment (an East Asian locale makes the
+    # box-drawing glyphs two cells wide): the driver always runs in the C locale
+    e.update(LANG="C", LC_ALL="C", LC_CTYPE="C")
+    e.pop("RUNEWIDTH_EASTASIAN", None)
     return e
 
 
@@ -171,7 +175,7 @@ def drive(vdrive, scen_path, trace_path, facets, every=False, subst=0, pool="tex
     if subst:
         cmd += ["-subst", str(subst), "-pool", pool]
     cmd += list(extra)
-    p = run(cmd, timeout=timeout, check=False)
+    p = run(cmd, env=goenv(), timeout=timeout, check=False)
     if p.returncode != 0:
         raise Infra("driver failed (%d): %s" % (p.returncode, (p.stdout or "")[-3000:]))
     m = re.search(r"vdrive: (\{.*\})", p.stdout or "")
